@@ -381,7 +381,10 @@ def build_base(env, case):
     cl.append("rx:" + ("r_zero" if r == 0 else "x_ge_n" if R[0] >= N else "x_lt_n"))
     sp = pow(k, -1, N) * (case["msg"] + r * x) % N
     if sp == 0:
-        sp = 1      # (message = 0 with r = 0): anything; the candidate is invalid anyway
+        # msg + r*x = 0 (mod n) — e.g. r = 0 with message 0, or x = n-1, r = 1, msg = 1: no valid s' exists for this (R, x, msg);
+        # any value gives an INVALID candidate (decided by the reference like every other string), so it is not "honest"
+        sp = 1
+        cl.append("rx:no_valid_sp")
     e, sd = A.dleq_prove(k, Y, k2)
     return A.serialize(R, ec.mulg(k), sp, e, sd), X, msg32, Y, None, cl
 
@@ -529,7 +532,7 @@ def run_string(env, case):
     env.require(got == (1 if exp else 0), "adaptor_verify verdict %d, specification says %d" % (got, exp), sig=b.hex(), X=ec.ser33(Xv).hex(), Y=ec.ser33(Yv).hex(), m=mv.hex())
     no_callbacks(env, "adaptor_verify")
     classes.append("accept" if got else "reject")
-    if not (sig_mut or ctx_mut) and "rx:r_zero" not in classes:
+    if not (sig_mut or ctx_mut) and "rx:r_zero" not in classes and "rx:no_valid_sp" not in classes:
         env.require(got == 1, "unmodified honest adaptor signature rejected")
     if got and (sig_mut or ctx_mut):
         classes.append("accept_after_mutation")
